@@ -46,11 +46,10 @@ def cases(tier, seed):
             spec["target"] = {"kind": "scripted", "c": spec["target"]["c"], "where": "in",
                               "search": pats[int(rng.integers(len(pats)))], "poll": pats[int(rng.integers(len(pats)))], "other": "F"}
         out.append({"spec": spec})
-    for c in C.option_variation_slice("C13", tier, seed):
-        # mesh rules show after many polls: longer runs, and a steep non-smooth cone so that the mesh is refined far down
-        c["spec"]["options"]["max_fun_evals"] = 170
-        if c["spec"]["target"].get("kind") == "quad":
-            c["spec"]["target"]["kind"] = "l1"
+    # mesh rules show after many polls: longer runs, and steep non-smooth cones so that the mesh is refined far down
+    for c in C.option_variation_slice("C13", tier, seed, gen_kw=dict(lands=("l1", "l1", "rosen"), budgets=(170,))):
+        if c["optvar"][0] not in ("tol_fun", "tol_stall_iters"):
+            c["spec"]["options"]["tol_stall_iters"] = 40  # no early stall stop: the mesh is refined until tol_mesh or the budget
         out.append(c)
     return out
 
